@@ -17,8 +17,9 @@ CFG = dict(
          "2^k and 2^k+-1 up to 2^56 and random n. "
          "Non-trivial: histories of size >= 3 that is not a power of two, proofs with j >= 3, every verifier case; "
          "distinct by full case content. Falsifier: a Go verifier acceptance whose claim is false for the harness' "
-         "own leaves; an inexact consistency acceptance at the HONEST proof length (excluded by theorem "
-         "C08_consistency_sound_exact_honest_length) is reported apart from the known finding; digest-log entry count "
+         "own leaves (inclusion: not leaf i of the genuine tree; consistency: old root not the root of the first i "
+         "payloads - excluded by theorems C08_ahtree_inclusion_sound_exact / C08_consistency_fixed_sound_exact); "
+         "outcome of the proof generators and of htree.InclusionProof on illegal arguments; digest-log entry count "
          "against nodesUpto(size); two accepted inclusion (or last-inclusion) proofs for one (position, root) with "
          "different leaves (theorems C08_ahtree_*_proof_unique); any error of Append/RootAt/InclusionProof/"
          "ConsistencyProof on a legal history.",
@@ -26,13 +27,16 @@ CFG = dict(
         "executable SHA-256 of coq/Merkle/Sha256.v uses Coq's primitive Uint63 integers under vm_compute (only to run "
         "the model; validated against crypto/sha256 by the CSha cases); theorems are about an abstract hash H",
         "hash assumptions are in the statements: every soundness theorem concludes `claim \\/ Collision H`",
-        "modelled: ahtree.VerifyInclusion/VerifyLastInclusion/VerifyConsistency, htree.VerifyInclusion (transliterated), "
+        "modelled: ahtree.VerifyInclusion/VerifyLastInclusion/VerifyConsistency (the current one, with the "
+        "consistencyProofLen test of 05f2785, is `verify_consistency_fixed`; `verify_consistency` is the pre-fix "
+        "function kept for witnesses and partial theorems), htree.VerifyInclusion (transliterated), htree.BuildWith "
+        "level arrays and htree.InclusionProof (coq/Merkle/HTree.v; arrays modelled by what the last BuildWith wrote), "
         "reference tree mk_tree (RFC 6962 shape) and audit path; the AHtree digest log (coq/Merkle/AHT.v: nodesUpto, "
         "nodesUntil, levelsAt, node(n,l), the Append w,l,k loop, rootAt, highestNode, inclusionProof, consistencyProof, "
         "ResetSize rewinding the sizes over logs that keep their stale tails); uint64 arithmetic modelled in N without "
         "wrap-around (agrees for sizes < 2^58; n = 0 never reaches the addressing functions since 172c7ab); "
         "NOT modelled (tie only): the digest/payload caches (read-through; the tie reads the log through them), the "
-        "three appendable files and the commit log (C17/C03), Sync/Close/Open, htree level arrays and htree.InclusionProof",
+        "three appendable files and the commit log (C17/C03), Sync/Close/Open, the stale tails of the htree level arrays",
         "hook /repo/embedded/ahtree/verif_hooks_c08.go (build tag verif, add-only): VerifNodesUpto/VerifNodesUntil/"
         "VerifLevelsAt, VerifDigests",
     ],
